@@ -426,10 +426,19 @@ def compile_ast(
                 df = df.join(right_df, how="cross")
 
             else:
+                left_keys = [compile_col_expr(col, name_in_df) for col in left_on]
+                right_keys = [compile_col_expr(col, name_in_df) for col in right_on]
+                for i, (left_col, right_col) in enumerate(zip(left_on, right_on, strict=True)):
+                    # polars does not compare an integer with a float join key
+                    left_float = types.without_const(left_col.dtype()).is_float()
+                    right_float = types.without_const(right_col.dtype()).is_float()
+                    if left_float != right_float:
+                        left_keys[i] = left_keys[i].cast(pl.Float64)
+                        right_keys[i] = right_keys[i].cast(pl.Float64)
                 df = df.join(
                     right_df,
-                    left_on=[compile_col_expr(col, name_in_df) for col in left_on],
-                    right_on=[compile_col_expr(col, name_in_df) for col in right_on],
+                    left_on=left_keys,
+                    right_on=right_keys,
                     how=nd.how,
                     validate=nd.validate,
                     coalesce=False,
